@@ -195,14 +195,30 @@ pub fn check(v: &View, vd: &mut Verdict) {
         }
     }
     // timers never keep the actor alive; none is leaked
+    let saturated = |a: ActorId| {
+        let sending = matches!(v.rt[a].mailbox, Mailbox::Bounded(_))
+            && timers.values().any(|o| o.actor == a && matches!(o.kind, TimerKind::IntervalWith | TimerKind::DelayedSend));
+        let produced: usize = timers.values().filter(|o| o.actor == a).map(|o| o.created.len()).sum();
+        let taken = v.invs.iter().filter(|i| i.actor == a && matches!(i.msg, MsgRef::Tick { .. })).count();
+        sending && v.flags.not_quiescent && produced > taken && v.actors[a].task_end.is_none()
+    };
     for (i, t) in v.tasks.iter().enumerate() {
         if t.end.is_none() {
             match t.tag {
+                TaskTag::Timer { actor, .. } if saturated(actor) => {}
                 TaskTag::Timer { actor, timer } => vd.fail(
                     format!("C10/timer_task_leaked/{:?}", timers.get(&timer).map(|t| t.kind)),
                     format!("timer task {i} (timer {timer} of actor {actor}) is still alive at the end (actor ended at {:?})", v.actors.get(actor).and_then(|a| a.task_end)),
                 ),
                 TaskTag::Actor(a) => {
+                    // a timer whose send waits on a full bounded mailbox holds an upgraded sender meanwhile (an
+                    // operation in flight, as in the rule above): an actor that its own timers saturate has such
+                    // a send pending at any moment, the run ends on its budget with ticks produced but not yet
+                    // taken out - "every strong handle was dropped" is not true at that point: no verdict
+                    if saturated(a) {
+                        vd.class("saturated_by_own_timers");
+                        continue;
+                    }
                     if timers.values().any(|t| t.actor == a) {
                         vd.fail("C10/actor_kept_alive", format!("actor {a} with timers is still alive after every strong handle was dropped"));
                     }
